@@ -20,3 +20,7 @@ import NbioVerif.Lemmas.SrcBridgeConn
 #print axioms ConnFull.src_pAddRead
 #print axioms ConnFull.src_pAddReadWrite
 #print axioms ConnFull.src_masks_wellformed
+#print axioms ConnFull.c04_quiet_after_tail
+#print axioms ConnFull.c04_drains_from_open
+#print axioms ConnFull.c04_progress_eintr
+#print axioms ConnFull.c04_flush_empty_noop
